@@ -34,7 +34,7 @@ Definition cfg_ok (c : cfg) : bool :=
 (** ---- the class -------------------------------------------------------------------------------- *)
 Definition is_cmp (o : uop) : bool := negb (is_arith o) && negb (is_logic o).
 Definition is_col (t : uexpr) : bool := match t with UCol _ => true | _ => false end.
-(** between's bounds, startswith's and substr's arguments are taken with `.expression`, which keeps an Alias
+(** between's bounds are taken with `.expression`, which keeps an Alias
     node (the emitted "x AS z" inside an expression is not in the modelled fragment): excluded from the class *)
 (** F.when(...) results carry an automatic alias (the @meta decorator), so they are excluded there as well *)
 Definition noalias (t : uexpr) : bool := match t with UAlias _ _ | UWhen _ => false | _ => true end.
@@ -79,9 +79,9 @@ Fixpoint in_class (c : cfg) (t : uexpr) : bool :=
                          && noalias lo && noalias hi
   | URlike a _ | UAlias a _ => in_class c a
   | UCast a ty => in_class c a && negb (same_cast ty a)
-  | UStartsWith a b => in_class c a && in_class c b && noalias b
-  | UEndsWith a b => in_class c a && in_class c b && String.eqb (c_endswith_fn c) "ENDS_WITH" && noalias b
-  | USubstr a p l => in_class c a && in_class c p && in_class c l && noalias p && noalias l
+  | UStartsWith a b => in_class c a && in_class c b
+  | UEndsWith a b => in_class c a && in_class c b && String.eqb (c_endswith_fn c) "ENDS_WITH"
+  | USubstr a p l => in_class c a && in_class c p && in_class c l
   | UWhen bs => in_classb c bs
   | UGetItemLit a _ => is_col a
   | UGetItemCol a i => is_col a && in_class c i && Z.eqb (getitem_off c (build c i)) 1 && closed i
